@@ -34,7 +34,8 @@ CONFIG = worlda.base_config(
     "(create/truncate also as 'opened but nothing written yet') and every write statement / commit of the simulated sqlite worker, before and after. "
     "EVERY recorded state is restored, the real server is started on it and probed: start-up succeeds, every mailbox selects, acknowledged "
     "APPEND/COPY/MOVE messages present, acknowledged expunges absent, acknowledged flags kept (the op in flight may show old or new), no revealed "
-    "(UIDVALIDITY, UID) bound to another message, UIDNEXT above every revealed UID. evaluations = crash states checked; non-trivial = state differs from "
+    "(UIDVALIDITY, UID) bound to another message, UIDNEXT above every revealed UID. For every third history each state is restarted a second time after an MH "
+    "agent has delivered a message (highest number + 1) into every folder while the server was dead. evaluations = crash states checked; non-trivial = state differs from "
     "the previous one; distinct = distinct directory-state hashes",
     level_text="fault enumeration over crash points: exhaustive over the storage events of each explored history (all events, not a sample), sampled over "
     "histories. Crash = process death (all completed system calls survive, nothing in memory does).",
@@ -325,7 +326,24 @@ async def probe_crash_state(world, node, expect_before, expect_after, violate, c
     obs.close()
 
 
-def check_snapshot(snap, states, program, opts, idx):
+def deliver_while_down(maildir, idx):
+    """An MH agent delivers one message into every folder that has messages while the server is dead: Python's
+    mailbox.MH.add() / rcvstore semantics - the new message gets the highest number in the folder plus one (which is the
+    number of the last message if that one's file has just been removed)."""
+    n = 0
+    for root, dirs, files in os.walk(maildir):
+        dirs.sort()
+        keys = sorted(int(f) for f in files if f.isdigit())
+        if not keys or not os.path.exists(os.path.join(root, ".mh_sequences")):
+            continue
+        tok = 9000 + (idx * 7 + n) % 900
+        with open(os.path.join(root, str(keys[-1] + 1)), "wb") as f:
+            f.write(corpus.build("plain", tok))
+        n += 1
+    return n
+
+
+def check_snapshot(snap, states, program, opts, idx, down_delivery=False):
     """Restore one crash state into a fresh directory and restart on it."""
     from harness.driver import scratch_base
 
@@ -341,10 +359,14 @@ def check_snapshot(snap, states, program, opts, idx):
     os.makedirs(os.path.dirname(maildir), exist_ok=True)
     FS.busy = True
     shutil.copytree(snap["dir"], maildir, symlinks=True)
+    if down_delivery:
+        deliver_while_down(maildir, idx)
     FS.busy = False
     out = []
 
     def violate(rule, **detail):
+        if down_delivery:
+            detail["delivery_while_down"] = True
         detail.update(crash_event=snap["event"], crash_kind=snap["kind"], crash_at=snap["what"], during_op=snap["op"], during_pack=bool(snap.get("during_pack")))
         out.append({"property": PROP, "rule": rule, "detail": detail})
 
@@ -423,6 +445,14 @@ def execute(program, opts):
         for k, n in counts.items():
             rules[k] = rules.get(k, 0) + n
         res_v.extend(v)
+        if program.get("down_delivery") and not v:
+            # the same crash state once more, with mail delivered before the server comes back
+            v2, counts2, st2 = check_snapshot(snap, states, program, opts, idx, down_delivery=True)
+            steps += st2
+            rules["c11_restart_after_delivery_while_down"] = rules.get("c11_restart_after_delivery_while_down", 0) + 1
+            ctx.env.fired("delivery_while_down")
+            res_v.extend(v2)
+            v = v2
         if v and opts.get("minimising"):
             break
     res = {
@@ -512,6 +542,8 @@ def generate(seed, tier, index, kf):
         prog["props"] = [PROP]
         prog["name"] = f"random-{hseed}"
         prog["latency"] = {"exec": "zero", "db": "zero", "net": "zero"}
+    # every third history: each crash state is also restarted after an MH delivery made while the server was dead
+    prog["down_delivery"] = hist_no % 3 == 1
     prog["crash_slice"] = (k, SLICES)
     prog["seed"] = prog.get("seed", seed)
     return prog
